@@ -172,7 +172,7 @@ func Names(fs []Field) []string {
 func Get(fs []Field, name string) []string {
 	var out []string
 	for _, f := range fs {
-		if strings.EqualFold(f.Name, name) {
+		if asciiEqualFold(f.Name, name) {
 			out = append(out, f.Value)
 		}
 	}
@@ -363,9 +363,9 @@ func framing(fields []Field, atLeast11 bool, o Options) (Framing, int64, *Reject
 	var teF, clF []Field
 	for _, f := range fields {
 		switch {
-		case strings.EqualFold(f.Name, "Transfer-Encoding"):
+		case asciiEqualFold(f.Name, "Transfer-Encoding"):
 			teF = append(teF, f)
-		case strings.EqualFold(f.Name, "Content-Length"):
+		case asciiEqualFold(f.Name, "Content-Length"):
 			clF = append(clF, f)
 		}
 	}
@@ -380,7 +380,7 @@ func framing(fields []Field, atLeast11 bool, o Options) (Framing, int64, *Reject
 			}
 		}
 		off := teF[0].Start
-		single := len(list) == 1 && strings.EqualFold(list[0], "chunked")
+		single := len(list) == 1 && asciiEqualFold(list[0], "chunked")
 		if !single {
 			if len(teF) > 1 {
 				return 0, 0, &RejectError{TEMultipleLines, teF[1].Start, fmt.Sprintf("%d Transfer-Encoding lines, combined list %q", len(teF), list), false}
@@ -393,11 +393,11 @@ func framing(fields []Field, atLeast11 bool, o Options) (Framing, int64, *Reject
 				if !httpfield.IsToken(m) {
 					return 0, 0, &RejectError{TEInvalidSyntax, off, fmt.Sprintf("transfer-coding %q is not a plain token", m), false}
 				}
-				if strings.EqualFold(m, "chunked") {
+				if asciiEqualFold(m, "chunked") {
 					nch++
 				}
 			}
-			last := strings.EqualFold(list[len(list)-1], "chunked")
+			last := asciiEqualFold(list[len(list)-1], "chunked")
 			switch {
 			case nch >= 2:
 				return 0, 0, &RejectError{TEChunkedRepeated, off, fmt.Sprintf("chunked applied %d times: %q", nch, list), false}
@@ -515,13 +515,13 @@ func ParseResponseOpts(b []byte, reqMethod string, reqProtoMinor int, o Options)
 		return nil, 0, rej
 	}
 	switch {
-	case strings.EqualFold(reqMethod, "HEAD"), resp.Status/100 == 1, resp.Status == 204, resp.Status == 304:
+	case asciiEqualFold(reqMethod, "HEAD"), resp.Status/100 == 1, resp.Status == 204, resp.Status == 304:
 		resp.Framing = FramingNone
 		if fr == FramingContentLength {
 			resp.ContentLength = cl // metadata only
 		}
 		return resp, next, nil
-	case strings.EqualFold(reqMethod, "CONNECT") && resp.Status/100 == 2:
+	case asciiEqualFold(reqMethod, "CONNECT") && resp.Status/100 == 2:
 		resp.Framing = FramingTunnel
 		return resp, next, nil
 	}
@@ -549,4 +549,26 @@ func ParseResponseOpts(b []byte, reqMethod string, reqProtoMinor int, o Options)
 		resp.Body = b[next:]
 		return resp, len(b), nil
 	}
+}
+
+// asciiEqualFold is case-insensitive equality over ASCII letters only. Unicode
+// simple folding (strings.EqualFold) would equate U+212A KELVIN SIGN with 'k'
+// and U+017F LONG S with 's', which are not ASCII token characters.
+func asciiEqualFold(a, b string) bool {
+	if len(a) != len(b) {
+		return false
+	}
+	for i := 0; i < len(a); i++ {
+		x, y := a[i], b[i]
+		if 'A' <= x && x <= 'Z' {
+			x += 'a' - 'A'
+		}
+		if 'A' <= y && y <= 'Z' {
+			y += 'a' - 'A'
+		}
+		if x != y {
+			return false
+		}
+	}
+	return true
 }
